@@ -5,7 +5,8 @@
 (* R = reconnect timeout in ticks.                                         *)
 (*                                                                         *)
 (* System state: the live connection (0 = none), the connect loop          *)
-(* ("idle" | "trying" | "sleeping" until wake), per-connection callback    *)
+(* ("idle" | "trying" | "dialing" | "sleeping" until wake), per-connection *)
+(* callback                                                                *)
 (* counters, the list of connect attempt times, and for TCP the watchdog   *)
 (* (time of the last probe, time of the last answer).                      *)
 (* Environment actions: connect attempt outcome, read error, orderly close *)
@@ -18,50 +19,74 @@ CONSTANTS Dev, Fl, R, MaxConn, MaxTime,
           Slack      \* the asyncio watchdog re-arms every R + Slack ticks (reconnect_timeout + 0.1 s, rounded up to ticks)
 
 VARIABLES now, stopped, live, nconn, made, lost, lostexc, attempts, loop, wake,
-          lastProbe, lastAnswer, probes, afterStop, eofPending, nextCheck
+          lastProbe, lastAnswer, probes, afterStop, eofPending, nextCheck,
+          lastFail,   \* time at which the last failed connect attempt ended (the retry sleep starts there)
+          orphans     \* devices that a dial in flight across stop() opened afterwards (must never become a link)
 vars == <<now, stopped, live, nconn, made, lost, lostexc, attempts, loop, wake,
-          lastProbe, lastAnswer, probes, afterStop, eofPending, nextCheck>>
+          lastProbe, lastAnswer, probes, afterStop, eofPending, nextCheck, lastFail, orphans>>
 
 Init ==
   /\ now = 0 /\ stopped = FALSE /\ live = 0 /\ nconn = 0
   /\ made = [c \in 1..MaxConn |-> 0] /\ lost = [c \in 1..MaxConn |-> 0] /\ lostexc = [c \in 1..MaxConn |-> FALSE]
   /\ attempts = <<>> /\ loop = "idle" /\ wake = 0
   /\ lastProbe = 0 /\ lastAnswer = 0 /\ probes = 0 /\ afterStop = 0 /\ eofPending = FALSE /\ nextCheck = 0
+  /\ lastFail = 0 /\ orphans = 0
 
 \* start(): the connect loop begins with an attempt right away
 Start == /\ loop = "idle" /\ ~stopped /\ live = 0 /\ nconn = 0 /\ attempts = <<>>
          /\ loop' = "trying"
-         /\ UNCHANGED <<now, stopped, live, nconn, made, lost, lostexc, attempts, wake, lastProbe, lastAnswer, probes, afterStop, eofPending, nextCheck>>
+         /\ UNCHANGED <<now, stopped, live, nconn, made, lost, lostexc, attempts, wake, lastProbe, lastAnswer, probes, afterStop, eofPending, nextCheck, lastFail, orphans>>
 
-\* one connect attempt with the outcome the environment chooses
+\* A connect attempt is a dial that begins (the attempt is counted, the device call is entered) and later
+\* ends with the outcome the environment chooses.  Between the two the clock may move and stop() may be
+\* called; a dial that ends after stop() must not become a link.
+DialBegin ==
+  /\ loop = "trying" /\ ~stopped /\ nconn < MaxConn
+  /\ attempts' = Append(attempts, now) /\ loop' = "dialing"
+  /\ UNCHANGED <<now, stopped, live, nconn, made, lost, lostexc, wake, lastProbe, lastAnswer, probes, afterStop, eofPending, nextCheck, lastFail, orphans>>
+DialEnd(ok) ==
+  /\ loop = "dialing"
+  /\ IF stopped
+       THEN /\ loop' = "idle" /\ orphans' = (IF ok THEN orphans + 1 ELSE orphans)
+            /\ UNCHANGED <<nconn, live, made, lastProbe, lastAnswer, wake, lastFail, nextCheck>>
+       ELSE /\ orphans' = orphans
+            /\ IF ok THEN /\ nconn' = nconn + 1 /\ live' = nconn + 1 /\ made' = [made EXCEPT ![nconn + 1] = @ + 1]
+                          /\ loop' = "idle" /\ wake' = wake /\ lastFail' = lastFail
+                          /\ lastProbe' = now /\ lastAnswer' = now
+                    ELSE /\ UNCHANGED <<nconn, live, made, lastProbe, lastAnswer>>
+                         /\ loop' = "sleeping" /\ wake' = now + R /\ lastFail' = now
+            /\ nextCheck' = (IF ok THEN now + R + Slack ELSE nextCheck)     \* asyncio TCP: check_connection runs at connect, then every R + 0.1
+  /\ UNCHANGED <<now, stopped, lost, lostexc, attempts, probes, afterStop, eofPending>>
+\* the common case: the dial takes no time
+\* (= DialBegin \cdot DialEnd(ok), written out)
 Attempt(ok) ==
   /\ loop = "trying" /\ ~stopped /\ nconn < MaxConn
   /\ attempts' = Append(attempts, now)
   /\ IF ok THEN /\ nconn' = nconn + 1 /\ live' = nconn + 1 /\ made' = [made EXCEPT ![nconn + 1] = @ + 1]
-                /\ loop' = "idle" /\ wake' = wake
+                /\ loop' = "idle" /\ wake' = wake /\ lastFail' = lastFail
                 /\ lastProbe' = now /\ lastAnswer' = now
           ELSE /\ UNCHANGED <<nconn, live, made, lastProbe, lastAnswer>>
-               /\ loop' = "sleeping" /\ wake' = now + R
-  /\ nextCheck' = (IF ok THEN now + R + Slack ELSE nextCheck)     \* asyncio TCP: check_connection runs at connect, then every R + 0.1
-  /\ UNCHANGED <<now, stopped, lost, lostexc, probes, afterStop, eofPending>>
+               /\ loop' = "sleeping" /\ wake' = now + R /\ lastFail' = now
+  /\ nextCheck' = (IF ok THEN now + R + Slack ELSE nextCheck)
+  /\ UNCHANGED <<now, stopped, lost, lostexc, probes, afterStop, eofPending, orphans>>
 
 \* the link is lost without the user having asked for it: one callback, then a reconnect at once
 Lose(c, exc) ==
   /\ live' = 0 /\ lost' = [lost EXCEPT ![c] = @ + 1] /\ lostexc' = [lostexc EXCEPT ![c] = exc]
   /\ loop' = "trying"
 ReadError == /\ live # 0 /\ ~stopped /\ Lose(live, TRUE)
-             /\ UNCHANGED <<now, stopped, nconn, made, attempts, wake, lastProbe, lastAnswer, probes, afterStop, eofPending, nextCheck>>
+             /\ UNCHANGED <<now, stopped, nconn, made, attempts, wake, lastProbe, lastAnswer, probes, afterStop, eofPending, nextCheck, lastFail, orphans>>
 \* a failed write: send() closes the connection and asks for a reconnect; the closed
 \* connection reports "lost" without error
 WriteError == /\ live # 0 /\ ~stopped /\ \E x \in BOOLEAN : Lose(live, x)      \* the error argument of this callback is not prescribed
-              /\ UNCHANGED <<now, stopped, nconn, made, attempts, wake, lastProbe, lastAnswer, probes, afterStop, eofPending, nextCheck>>
+              /\ UNCHANGED <<now, stopped, nconn, made, attempts, wake, lastProbe, lastAnswer, probes, afterStop, eofPending, nextCheck, lastFail, orphans>>
 \* orderly close by the peer.  asyncio: reported at once as a loss WITHOUT error;
 \* threaded TCP: recv() returns b"" from now on - the watchdog has to notice; serial: n/a
 PeerClose ==
   /\ live # 0 /\ ~stopped /\ ~eofPending /\ (Dev = "tcp" \/ Fl = "async")
   /\ IF Fl = "async" THEN Lose(live, FALSE) /\ eofPending' = eofPending
                      ELSE eofPending' = TRUE /\ UNCHANGED <<live, lost, lostexc, loop>>
-  /\ UNCHANGED <<now, stopped, nconn, made, attempts, wake, lastProbe, lastAnswer, probes, afterStop, nextCheck>>
+  /\ UNCHANGED <<now, stopped, nconn, made, attempts, wake, lastProbe, lastAnswer, probes, afterStop, nextCheck, lastFail, orphans>>
 
 \* TCP watchdog (check_connection): probe when more than R since the last probe; give up when more
 \* than 2R since the last answer
@@ -77,30 +102,30 @@ Tick(d) ==
   /\ nextCheck' = IF /\ Fl = "async" /\ Dev = "tcp" /\ live # 0 /\ now + d >= nextCheck
                       /\ ~(now + d > lastProbe + R) /\ ~(now + d > lastAnswer + 2 * R)
                    THEN now + d + R + Slack ELSE nextCheck
-  /\ UNCHANGED <<stopped, live, nconn, made, lost, lostexc, attempts, wake, lastProbe, lastAnswer, probes, afterStop, eofPending>>
+  /\ UNCHANGED <<stopped, live, nconn, made, lost, lostexc, attempts, wake, lastProbe, lastAnswer, probes, afterStop, eofPending, lastFail, orphans>>
 Watchdog ==
   /\ ~stopped
   /\ IF DropDue THEN /\ (\E x \in BOOLEAN : Lose(live, x)) /\ lastAnswer' = now /\ UNCHANGED <<lastProbe, probes>> /\ eofPending' = FALSE
      ELSE IF ProbeDue THEN /\ probes' = probes + 1 /\ lastProbe' = now /\ UNCHANGED <<live, lost, lostexc, loop, lastAnswer, eofPending>>
      ELSE FALSE
   /\ nextCheck' = now + R + Slack
-  /\ UNCHANGED <<now, stopped, nconn, made, attempts, wake, afterStop>>
+  /\ UNCHANGED <<now, stopped, nconn, made, attempts, wake, afterStop, lastFail, orphans>>
 \* the gateway answers a probe (any I_VERSION message from it counts)
 Answer == /\ Dev = "tcp" /\ live # 0 /\ ~stopped /\ ~eofPending /\ lastAnswer' = now
-          /\ UNCHANGED <<now, stopped, live, nconn, made, lost, lostexc, attempts, loop, wake, lastProbe, probes, afterStop, eofPending, nextCheck>>
+          /\ UNCHANGED <<now, stopped, live, nconn, made, lost, lostexc, attempts, loop, wake, lastProbe, probes, afterStop, eofPending, nextCheck, lastFail, orphans>>
 
 \* stop(): disconnect (the closed connection reports "lost" without error, once), no reconnect, loops end
 Stop ==
   /\ ~stopped /\ stopped' = TRUE
   /\ IF live # 0 THEN lost' = [lost EXCEPT ![live] = @ + 1] ELSE lost' = lost
-  /\ live' = 0 /\ loop' = "idle"
-  /\ UNCHANGED <<now, nconn, made, lostexc, attempts, wake, lastProbe, lastAnswer, probes, afterStop, eofPending, nextCheck>>
+  /\ live' = 0 /\ loop' = (IF loop = "dialing" THEN "dialing" ELSE "idle")     \* a dial in flight cannot be recalled
+  /\ UNCHANGED <<now, nconn, made, lostexc, attempts, wake, lastProbe, lastAnswer, probes, afterStop, eofPending, nextCheck, lastFail, orphans>>
 
-Next == Start \/ Attempt(TRUE) \/ Attempt(FALSE) \/ ReadError \/ WriteError \/ PeerClose
+Next == Start \/ Attempt(TRUE) \/ Attempt(FALSE) \/ DialBegin \/ DialEnd(TRUE) \/ DialEnd(FALSE) \/ ReadError \/ WriteError \/ PeerClose
         \/ (\E d \in 1..(2 * R + 3) : Tick(d)) \/ Watchdog \/ Answer \/ Stop
 \* the system is never late: whatever is due (an attempt, a probe, a drop) happens before the clock moves
 Urgent == loop = "trying" \/ (~stopped /\ (DropDue \/ ProbeDue))
-NextTimed == (Urgent /\ (Attempt(TRUE) \/ Attempt(FALSE) \/ Watchdog \/ Stop))
+NextTimed == (Urgent /\ (Attempt(TRUE) \/ Attempt(FALSE) \/ DialBegin \/ Watchdog \/ Stop))
              \/ (~Urgent /\ Next)
 Spec == Init /\ [][NextTimed]_vars
 
@@ -111,11 +136,13 @@ MadeOncePerConnection == \A c \in 1..MaxConn : made[c] = (IF c <= nconn THEN 1 E
 LostOncePerLostConnection == \A c \in 1..MaxConn : lost[c] = (IF c <= nconn /\ c # live THEN 1 ELSE 0)
 AtMostOneLiveLink == live \in 0..nconn
 \* after an unrequested loss a reconnect is under way until it succeeds
-ReconnectAfterLoss == (~stopped /\ live = 0 /\ nconn > 0) => loop \in {"trying", "sleeping"}
+ReconnectAfterLoss == (~stopped /\ live = 0 /\ nconn > 0) => loop \in {"trying", "dialing", "sleeping"}
 \* retries are R apart: a failed attempt is followed by a sleep of exactly R, and (Urgent) the next
 \* attempt is made as soon as the clock reaches the wake-up time
-RetryEveryR == loop = "sleeping" => attempts # <<>> /\ wake = attempts[Len(attempts)] + R /\ now < wake
-QuietAfterStop == stopped => loop = "idle" /\ live = 0 /\ afterStop = 0
+RetryEveryR == loop = "sleeping" => attempts # <<>> /\ lastFail >= attempts[Len(attempts)] /\ wake = lastFail + R /\ now < wake
+QuietAfterStop == stopped => loop \in {"idle", "dialing"} /\ live = 0 /\ afterStop = 0
+\* whatever a dial in flight across stop() brings back is discarded: no callback, no link
+StoppedMeansNoNewLink == [][stopped => (made' = made /\ nconn' = nconn /\ live' = 0)]_vars
 \* TCP: an answered link is never dropped; a silent one is dropped within about 2R
 AnsweredNeverDropped ==
   [][(Dev = "tcp" /\ live # 0 /\ live' = 0 /\ ~stopped' /\ lost'[live] = lost[live] + 1 /\ lostexc'[live] /\ DropDue)
